@@ -425,9 +425,10 @@ func ruleC15Downconvert(c *Ctx) {
 		// no return between the handler call and the version test other than error replies
 		c.S.OK("R-C15-downconvert", key, c.Pos(c.InstrPos(theIf)), "RESP2 branch = down-converter applied to the handler's/hook's result")
 	}
-	// returns between the handler call and the test must carry dispatcher-built error replies only
+	// every return that does not pass the version test must carry a dispatcher-built error reply only — after the handler
+	// call as well as before it (a hook that supplies the reply instead of the handler is a reply like any other)
 	if hcall != nil {
-		for b := range reachableFrom(hcall.Block(), nil) {
+		for b := range reachableFrom(dh.Blocks[0], nil) {
 			if _, ok := b.Instrs[len(b.Instrs)-1].(*ssa.Return); !ok {
 				continue
 			}
@@ -508,6 +509,19 @@ func ruleC15Hello(c *Ctx) {
 						errorExit = true
 					}
 				}
+			}
+			// a version that is stored must come from the request: a constant that can reach the store (a default taken
+			// when HELLO names no version) switches a RESP3 connection back although nothing asked for it
+			defaulted := ""
+			for _, o := range ia.origins(st.Val, st.Block(), 0) {
+				if k, isC := constInt(o); isC && vs.finite && vs.vals[k] {
+					defaulted = fmt.Sprintf("%d", k)
+				}
+			}
+			if defaulted != "" && vs.subsetOf(2, 3) && errorExit {
+				c.S.Bad("R-C15-hello", key+":from-request", c.Pos(st.Pos()), fmt.Sprintf("%s can store the constant %s as protocol version on a path on which the request named none: a bare HELLO changes the protocol of the connection", fnName(fn), defaulted))
+			} else if vs.subsetOf(2, 3) && errorExit {
+				c.S.OK("R-C15-hello", key+":from-request", c.Pos(st.Pos()), "every version that can be stored was named by the request")
 			}
 			bounded := vs.subsetOf(2, 3) && errorExit
 			if bounded {
